@@ -75,6 +75,9 @@ type caseRes struct {
 // genBatch picks 1-12 accounts, wallet-like (all plain) or dirk-like (multi-signers, ordinary or distributed), any order.
 func genBatch(r *rand.Rand, plain, multi []harness.Acct) ([]harness.Acct, string) {
 	n := 1 + r.Intn(12)
+	if r.Intn(60) == 0 {
+		n = 250 + r.Intn(80) // a large operator: hundreds of validators in one request
+	}
 	out := make([]harness.Acct, 0, n)
 	pat := ""
 	if len(mixPool) > 0 && r.Intn(8) == 0 {
@@ -85,6 +88,9 @@ func genBatch(r *rand.Rand, plain, multi []harness.Acct) ([]harness.Acct, string
 			out = append(out, a)
 			pat += fmt.Sprintf("%T", a)[8:9]
 		}
+		if len(pat) > 16 {
+			pat = fmt.Sprintf("%s..(%d)", pat[:16], len(pat))
+		}
 		return out, "mixed:" + pat
 	}
 	if r.Intn(3) == 0 {
@@ -92,16 +98,33 @@ func genBatch(r *rand.Rand, plain, multi []harness.Acct) ([]harness.Acct, string
 			out = append(out, plain[r.Intn(len(plain))])
 			pat += "P"
 		}
+		if len(pat) > 16 {
+			pat = fmt.Sprintf("%s..(%d)", pat[:16], len(pat))
+		}
 		return out, pat
 	}
+	pool := multi
+	if n > 100 && r.Intn(3) > 0 {
+		// hundreds of validators behind one kind of remote signer (all ordinary, or all distributed)
+		wantDist := r.Intn(2) == 0
+		pool = nil
+		for _, a := range multi {
+			if _, d := a.(e2wtypes.DistributedAccount); d == wantDist {
+				pool = append(pool, a)
+			}
+		}
+	}
 	for i := 0; i < n; i++ {
-		a := multi[r.Intn(len(multi))]
+		a := pool[r.Intn(len(pool))]
 		out = append(out, a)
 		if _, d := a.(e2wtypes.DistributedAccount); d {
 			pat += "D"
 		} else {
 			pat += "O"
 		}
+	}
+	if len(pat) > 16 {
+		pat = fmt.Sprintf("%s..(%d)", pat[:16], len(pat))
 	}
 	return out, pat
 }
@@ -311,7 +334,7 @@ func oneRequest(ctx context.Context, s *signer.Service, r *rand.Rand, spe uint64
 		} else {
 			as, pat := genBatch(r, plain, multi)
 			refused := map[int]bool{}
-			if strings.Trim(pat, "P") != "" && r.Intn(3) == 0 {
+			if !strings.HasPrefix(pat, "P") && r.Intn(3) == 0 {
 				// some accounts of a dirk-like batch are refused a signature by their remote signer
 				for i := range as {
 					if r.Intn(3) == 0 {
